@@ -598,6 +598,66 @@ def attrcap(run, fx):
         run.held('LOADERSIB', inst, loc, 'accepted on `%s` %s: capacity() <= _num_attrs%s' % (txt, 'true' if p else 'false', ' + %d (more than declared: not this property\'s concern)' % c if c else ' exactly'))
 
 
+def fileexact(run, fx):
+    """FILESIB: a file face hands the library the same bytes a callback face over the same file would: FileFace::get_table_fn reads
+    exactly the table's directory length -- the value the bounds test against the file size covers -- no more (padding that is not
+    there makes fread come up short and the table "missing") and no less.  As linear forms: the byte count of the fread, the count it is
+    compared with, the size of the buffer and the length reported through *len are all the length GetTableInfo returned."""
+    from . import linear
+    inst = 'the file face reads exactly the directory length of a table'
+    if not fx.fns_named('graphite2::FileFace::get_table_fn'):
+        run.held('FILESIB', inst, '', 'no file faces in this configuration (GRAPHITE2_NFILEFACE)', False)
+        return
+    fn = fx.one('graphite2::FileFace::get_table_fn')
+    gi = calls_in(fn, 'graphite2::TtfUtil::GetTableInfo')
+    fr = [e for _, e in fn.elements() if e['k'] == 'CallExpr' and (e.get('fq') or '') == 'fread']
+    ma = [e for _, e in fn.elements() if e['k'] == 'CallExpr' and (e.get('fq') or '') in ('malloc', 'graphite2::gralloc')]
+    if len(gi) != 1 or len(fr) != 1 or not ma:
+        run.broken('FILESIB', inst, 'GetTableInfo / fread / malloc calls of get_table_fn not recognised (%d, %d, %d)' % (len(gi), len(fr), len(ma)), fn.where())
+        return
+    lenarg = fn.strip_all_casts(fn.N(gi[0]['args'][-1]))
+    if lenarg['k'] != 'DeclRefExpr':
+        run.broken('FILESIB', inst, 'the length out-argument of GetTableInfo is not a local', fn.loc(gi[0]))
+        return
+    L = ({fn.render(lenarg): 1}, 0)
+
+    def form(x):
+        t, c = linear.lin(fn, x, through_unsigned=True)
+        return (dict(t), c)
+    a = fr[0]['args']
+    size_, n_ = form(a[1]), form(a[2])
+    count = n_ if size_ == ({}, 1) else size_ if n_ == ({}, 1) else None
+    probs = []
+    if count != L:
+        probs.append('fread is asked for `%s` x `%s` bytes' % (fn.render(fn.N(a[1])), fn.render(fn.N(a[2]))))
+    if form(ma[0]['args'][0]) != L:
+        probs.append('the buffer has `%s` bytes' % fn.render(fn.N(ma[0]['args'][0])))
+    # the comparison of fread's result
+    par = fn.parents()
+    cmpn = None
+    cur = fr[0]['i']
+    for _ in range(4):
+        ups = par.get(cur) or []
+        if not ups:
+            break
+        p_ = fn.nodes[ups[0]]
+        if p_['k'] == 'BinaryOperator' and p_.get('op') in ('!=', '==', '<'):
+            cmpn = p_
+            break
+        cur = p_['i']
+    if cmpn is None:
+        probs.append('the result of fread is not compared with the length')
+    else:
+        other = [c_ for c_ in cmpn['c'] if not any(x is fr[0] or (isinstance(x, dict) and x.get('i') == fr[0]['i']) for x in fn.walk(c_))]
+        if not other or form(other[0]) != L:
+            probs.append('the result of fread is compared with `%s`' % (fn.render(fn.N(other[0])) if other else '?'))
+    if probs:
+        run.violated('FILESIB', inst, fn.loc(fr[0]), 'FileFace::get_table_fn: %s, not the length `%s` that GetTableInfo returned and the test against the file size covers: a table that ends the file '
+                     'without padding is reported missing by a file face, while a callback face over the same bytes has it' % ('; '.join(probs), fn.render(lenarg)))
+    else:
+        run.held('FILESIB', inst, fn.loc(fr[0]), 'buffer, fread count and comparison are all `%s`' % fn.render(lenarg))
+
+
 def run(run):
     fx = run.facts('Q0')
     opssize(run, fx)
@@ -615,6 +675,7 @@ def run(run):
         run.broken('LOADERSIB', 'box records: two rectangles per sub-box at every site', str(ex))
     lazyaccess(run, fx)
     filesib(run, fx)
+    fileexact(run, fx)
     c13.selectors(run, fx)
     c13.planeroute(run, fx)
     c13.agree(run, fx)
